@@ -6,7 +6,8 @@
   `canon` is the discrete part (what the writer does not write and the reader completes: an adjacent id 0, an empty lanelet
   type set, a stop line without points, `virtual`, the light direction default, a non-positive time offset, a zero centre /
   orientation of a dynamic obstacle's shape, a one-member shape group, the attribute order of a state, the defaults of an
-  initial state); `mapR` touches the reals and nothing else.  `canon` is the identity on strictly expressible values.
+  initial state AND the loss of every attribute of an initial state that `InitialState` does not have: `C01_initial_extra_dropped`);
+  `mapR` touches the reals and nothing else.  `canon` is the identity on strictly expressible values.
 -/
 import CRModel.CRXml
 import CRProofs.CRXml
